@@ -20,6 +20,23 @@ type requestStream struct {
 	reader          *bufio.Reader
 	totalBytesRead  int
 	chunkLeft       int
+	chunkedDone     bool
+}
+
+// unread reports whether a part of the request body has not been read from
+// the connection yet. Whatever is left there would be parsed as the next
+// request, so the connection must not be reused in that case.
+func (rs *requestStream) unread() bool {
+	contentLength := rs.header.ContentLength()
+	if contentLength == -1 {
+		return !rs.chunkedDone
+	}
+	if contentLength < 0 {
+		return false
+	}
+	// The prefetched bytes have already been taken out of the connection,
+	// whether or not the handler looked at them.
+	return max(int(rs.prefetchedBytes.Size()), rs.totalBytesRead) < contentLength
 }
 
 func (rs *requestStream) Read(p []byte) (int, error) {
@@ -38,6 +55,7 @@ func (rs *requestStream) Read(p []byte) (int, error) {
 				if err != nil && err != io.EOF {
 					return 0, err
 				}
+				rs.chunkedDone = true
 				return 0, io.EOF
 			}
 			rs.chunkLeft = chunkSize
@@ -98,6 +116,7 @@ func releaseRequestStream(rs *requestStream) {
 	rs.prefetchedBytes = nil
 	rs.totalBytesRead = 0
 	rs.chunkLeft = 0
+	rs.chunkedDone = false
 	rs.reader = nil
 	rs.header = nil
 	requestStreamPool.Put(rs)
